@@ -201,7 +201,7 @@ CHECKS['C11'] = dict(
     src='checks/c11_loader_faults.cpp',
     runs=[dict(cfg='asan')],
     technique='deviation-bounded fault enumeration over reference-encoded bitmaps, tilesets and PRT files plus arithmetically constructed wrap-consistent headers; explicit-state exploration of follow-up operations on every accepted object',
-    level_text='Seeds: indexed bitmaps of depth 1, 4 (partial palette, top-down) and 8, a tileset stored as standard bitmap, a custom tileset 32x64, and a PRT file with 2 palettes, 3 images (one shadow image) and 2 animations. Every proper prefix, every integer field x ~45 boundary values, byte substitutions in the header regions, and (thorough) all field pairs x 10x10 values are loaded through BitmapFile::ReadIndexed, Tileset::ReadTileset and ArtFile::Read under ASan+UBSan; in addition headers are constructed arithmetically (no solver) whose size cross-check holds modulo 2^64 or 2^32: bitmap width in {0,-1,-2,-3,-4,-8,-31,-32,INT_MIN,INT_MIN+1,INT_MAX,2^28} x 18 heights incl. INT_MIN, with the 64-bit and the int-abs variant of |height|; custom tileset height fields >= 2^31 with the pixel length 32*h mod 2^32 and odd depth fields; PRT images of width 2^32-3..2^32-1 with scan line 0 and extreme heights. Every proper prefix must be refused. For every accepted bitmap all follow-up operations (Validate, WriteIndexed to memory and to a file, WriteCustomTileset, InvertScanLines, SwapRedAndBlue, AbsoluteHeight, GetScanLineOrientation) are applied in every reachable flip/swap state (fixpoint); for every accepted PRT, Write and SpriteLoader::ExtractImage for every index in 0..count+1 and SIZE_MAX against three pixel files (empty, short, large enough): every call must return or throw a std::exception, out-of-range sprite indices must be refused.',
+    level_text='Seeds: indexed bitmaps of depth 1, 4 (partial palette, top-down) and 8, a tileset stored as standard bitmap, a custom tileset 32x64, and a PRT file with 2 palettes, 3 images (one shadow image) and 2 animations. Every proper prefix, every integer field x ~45 boundary values, byte substitutions in the header regions, and (thorough) all field pairs x 10x10 values are loaded through BitmapFile::ReadIndexed, Tileset::ReadTileset and ArtFile::Read under ASan+UBSan; in addition headers are constructed arithmetically (no solver) whose size cross-check holds modulo 2^64 or 2^32: bitmap width in {0,-1,-2,-3,-4,-8,-31,-32,INT_MIN,INT_MIN+1,INT_MAX,2^28} x 18 heights incl. INT_MIN, with the 64-bit and the int-abs variant of |height|; bitmap headers with power-of-two pitch 2^p and height 2^(32-p)+j whose product matches the pixel size only modulo 2^32; custom tileset height fields >= 2^31 with the pixel length 32*h mod 2^32 and odd depth fields; PRT images of width 2^32-3..2^32-1 with scan line 0 and extreme heights. Every proper prefix must be refused. For every accepted bitmap all follow-up operations (Validate, WriteIndexed to memory and to a file, WriteCustomTileset, InvertScanLines, SwapRedAndBlue, AbsoluteHeight, GetScanLineOrientation) are applied in every reachable flip/swap state (fixpoint); for every accepted PRT, Write and SpriteLoader::ExtractImage for every index in 0..count+1 and SIZE_MAX against three pixel files (empty, short, large enough): every call must return or throw a std::exception, out-of-range sprite indices must be refused.',
     level_note='Trusts the reference encoders and g++/ASan/UBSan (gcc UBSan reports abs(INT_MIN)); allocation requests above 64 MiB are answered with bad_alloc. Coverage-guided mutation and solver-chosen combinations are replaced by the arithmetic enumeration above.',
     rule='case = a block of mutants of one seed; states = accepted objects and their flip/swap states; transitions = loader calls and follow-up operations',
     bounds={'quick': 'level 1 on 6 seeds + about 500 constructed headers', 'thorough': 'adds level 2 field pairs'},
@@ -225,11 +225,11 @@ CHECKS['C17'] = dict(
     src='checks/c17_lookup.cpp',
     runs=[dict(cfg='asan')],
     technique='small-scope exhaustive enumeration of archives x query variants and of directory layouts x queries, executed on the real lookup and resource-manager code against reference-encoded archives',
-    level_text='Archives: every reference-encoded VOL over all member subsets of size 0..3 of an 11-name pool (with 0..2 unused slots) and every CLM over 1..2 of 7 track names; queries = each member name as is / upper / lower / swapped case, each with and without a leading ./, near misses (one character more or less), absent and empty names: Contains(q) iff GetIndex(q) does not throw iff a member equals q up to case and the prefix; GetName(GetIndex(q)) names that member; GetIndex(GetName(i)) == i; indices count, count+1, SIZE_MAX, SIZE_MAX-1, 2^32, 2^32+count-1 are refused by GetName, GetSize, OpenStream, ExtractFile (and GetCompressionCode). Resource manager: 512 layouts (thorough 1024) in which each of a.txt, B.TXT, c.map, s is independently loose / in v1.vol / in v2.vol with distinct contents everywhere, next to a sub-directory, directories named dir.vol and dir.clm and a CLM archive, a quarter of them in a root directory whose own name contains the query patterns. Every query name x 8 case and ./ variants x accessArchives: the loose file under exactly that spelling wins, else the member of the first archive in GetArchiveFilenames() order that contains the name case-blindly, else nothing; rooted paths are refused; directory names give nothing. Type listings (8 extensions) and pattern listings (6 patterns) are checked by a sandwich oracle (every case-exact match present; nothing that fails a case-insensitive match, no directories, no members without archive access; in type listings no two entries equal ignoring case); FindContainingArchivePath names an archive that contains the name, or is empty iff none does.',
+    level_text='Archives: every reference-encoded VOL over all member subsets of size 0..3 of an 11-name pool (with 0..2 unused slots) and every CLM over 1..2 of 7 track names, each also with its members in reverse and rotated (non-sorted) order; queries = each member name as is / upper / lower / swapped case, each with and without a leading ./, near misses (one character more or less), absent and empty names: Contains(q) iff GetIndex(q) does not throw iff a member equals q up to case and the prefix; GetName(GetIndex(q)) names that member; GetIndex(GetName(i)) == i; indices count, count+1, SIZE_MAX, SIZE_MAX-1, 2^32, 2^32+count-1 are refused by GetName, GetSize, OpenStream, ExtractFile (and GetCompressionCode). Resource manager: 512 layouts (thorough 1024) in which each of a.txt, B.TXT, c.map, s is independently loose / in v1.vol / in v2.vol with distinct contents everywhere, next to a sub-directory, directories named dir.vol and dir.clm and a CLM archive, a quarter of them in a root directory whose own name contains the query patterns. Every query name x 8 case and ./ variants x accessArchives: the loose file under exactly that spelling wins, else the member of the first archive in GetArchiveFilenames() order that contains the name case-blindly, else nothing; rooted paths are refused; directory names give nothing. Type listings (8 extensions) and pattern listings (6 patterns) are checked by a sandwich oracle (every case-exact match present; nothing that fails a case-insensitive match, no directories, no members without archive access; in type listings no two entries equal ignoring case); FindContainingArchivePath names an archive that contains the name, or is empty iff none does.',
     level_note='Trusts ref_vol/ref_clm encoders, g++/ASan/UBSan, tmpfs directory iteration. The archive order is taken from GetArchiveFilenames() (directory iteration order is not specified).',
     rule='state = one archive or one directory layout; transitions = lookup / resource-manager calls judged',
     bounds={'quick': '232 VOL + 28 CLM archives; 512 layouts', 'thorough': '1024 layouts'},
-    must_hit={'any': ['archive/lookups-found', 'archive/lookups-absent', 'archive/out-of-range-indices', 'resources/loose-first', 'resources/from-archive', 'resources/expected-nothing', 'resources/rooted-paths', 'resources/directory-names', 'resources/type-listings', 'resources/pattern-listings', 'resources/containing-archive-found']},
+    must_hit={'any': ['archive/lookups-found', 'archive/lookups-absent', 'archive/out-of-range-indices', 'archive/unsorted-archives', 'resources/loose-first', 'resources/from-archive', 'resources/expected-nothing', 'resources/rooted-paths', 'resources/directory-names', 'resources/type-listings', 'resources/pattern-listings', 'resources/containing-archive-found']},
     assumptions=['the file system is case sensitive (Linux): a loose file is found only under its exact spelling'],
 )
 
